@@ -369,6 +369,11 @@ class Miller(Vector3d):
         m.coordinate_format = self.coordinate_format
         return m
 
+    def __neg__(self) -> Self:
+        m = self.__class__(xyz=-self.data, phase=self.phase)
+        m.coordinate_format = self.coordinate_format
+        return m
+
     # ------------------------ Class methods ------------------------- #
 
     @classmethod
